@@ -19,9 +19,10 @@ const (
 	kGET = iota
 	kUSE
 	kALL
+	kPOST // a verb other than GET (letters of the late-registration family only)
 )
 
-var kindNames = [...]string{"GET", "USE", "ALL"}
+var kindNames = [...]string{"GET", "USE", "ALL", "POST"}
 
 type node struct {
 	T      byte // 'r' route, 'g' group, 'm' mount
@@ -32,7 +33,37 @@ type node struct {
 	Items  []*node
 }
 
-type tree struct{ Items []*node }
+// Late > 0 makes the tree a two-phase program ("program steps after start-up"): the last Late
+// top-level items are registered on the root app AFTER the application was started and served its
+// first requests; app.RebuildTree() follows (the documented way of dynamic registration). The
+// static programs (every clause but late-registration) ignore Late.
+type tree struct {
+	Items []*node
+	Late  int
+}
+
+// split is the number of top-level items registered before start-up.
+func (t *tree) split() int { return len(t.Items) - t.Late }
+
+// lateHasMount tells whether a mount (at any depth) is registered after start-up.
+func (t *tree) lateHasMount() bool {
+	if !t.phased() {
+		return false
+	}
+	var has func(items []*node) bool
+	has = func(items []*node) bool {
+		for _, n := range items {
+			if n.T == 'm' || (n.T == 'g' && has(n.Items)) {
+				return true
+			}
+		}
+		return false
+	}
+	return has(t.Items[t.split():])
+}
+
+// phased tells whether t is a proper two-phase program (something before and something after start-up).
+func (t *tree) phased() bool { return t.Late >= 1 && t.Late < len(t.Items) }
 
 // rank orders: index = simplicity rank used by the minimiser (0 = simplest)
 var patRank = []string{"/x", "/", "", "/:id", "/*", "/X"}
@@ -80,10 +111,17 @@ func writeItems(b *strings.Builder, items []*node) {
 	}
 }
 
+// text form: [item; item || item] - the items after "||" are registered after start-up
 func (t *tree) String() string {
 	var b strings.Builder
 	b.WriteString("[")
-	writeItems(&b, t.Items)
+	if t.Late > 0 && t.Late <= len(t.Items) {
+		writeItems(&b, t.Items[:t.split()])
+		b.WriteString(" || ")
+		writeItems(&b, t.Items[t.split():])
+	} else {
+		writeItems(&b, t.Items)
+	}
 	b.WriteString("]")
 	return b.String()
 }
@@ -96,14 +134,17 @@ func (t *tree) goProgram() string {
 	id := 0
 	var rec func(recv string, items []*node, ind string)
 	rec = func(recv string, items []*node, ind string) {
-		for _, n := range items {
+		for i, n := range items {
+			if recv == "app" && t.Late > 0 && i == t.split() {
+				b.WriteString("handler := app.Handler() // start-up; every request is served once through handler\n")
+			}
 			switch n.T {
 			case 'r':
 				beh := "reply"
 				if n.Next {
 					beh = "next"
 				}
-				m := map[uint8]string{kGET: "Get", kUSE: "Use", kALL: "All"}[n.Kind]
+				m := map[uint8]string{kGET: "Get", kUSE: "Use", kALL: "All", kPOST: "Post"}[n.Kind]
 				b.WriteString(ind + recv + "." + m + `("` + n.Pat + `", h` + string(rune('0'+id)) + beh + ")\n")
 				id++
 			case 'g':
@@ -122,6 +163,9 @@ func (t *tree) goProgram() string {
 	}
 	b.WriteString("app := fiber.New(cfg)\n")
 	rec("app", t.Items, "")
+	if t.Late > 0 {
+		b.WriteString("app.RebuildTree() // then every request is served again through handler\n")
+	}
 	return b.String()
 }
 
@@ -137,7 +181,7 @@ func cloneNode(n *node) *node {
 }
 
 func (t *tree) clone() *tree {
-	c := &tree{Items: make([]*node, len(t.Items))}
+	c := &tree{Items: make([]*node, len(t.Items)), Late: t.Late}
 	for i, it := range t.Items {
 		c.Items[i] = cloneNode(it)
 	}
@@ -162,11 +206,13 @@ type leafInfo struct {
 	n     *node
 	chain []*node // enclosing containers, outermost first
 	full  string  // reference full pattern
+	top   int     // index of the top-level item the leaf belongs to
 }
 
 type treeInfo struct {
 	leaves     []leafInfo
 	containers [][]*node // chain (outermost first, including itself) of every container
+	contTop    []int     // index of the top-level item of every container
 	hasMount   bool
 	hasCont    bool
 	inside     uint32 // bit i: leaf i is inside a container
@@ -202,15 +248,19 @@ func analyse(t *tree) *treeInfo {
 		}
 	}
 	var rec func(items []*node, chain []*node, acc string, depth int)
+	top := 0
 	rec = func(items []*node, chain []*node, acc string, depth int) {
-		for _, n := range items {
+		for i, n := range items {
+			if depth == 0 {
+				top = i
+			}
 			if n.T == 'r' {
 				full := n.Pat
 				if depth > 0 {
 					full = refJoin(acc, n.Pat)
 				}
 				id := len(ti.leaves)
-				ti.leaves = append(ti.leaves, leafInfo{n: n, chain: append([]*node(nil), chain...), full: full})
+				ti.leaves = append(ti.leaves, leafInfo{n: n, chain: append([]*node(nil), chain...), full: full, top: top})
 				if depth > 0 {
 					ti.inside |= 1 << id
 				}
@@ -246,6 +296,7 @@ func analyse(t *tree) *treeInfo {
 			}
 			nchain := append(append([]*node(nil), chain...), n)
 			ti.containers = append(ti.containers, nchain)
+			ti.contTop = append(ti.contTop, top)
 			p := instantiate(nacc, "v")
 			addVariants(strings.TrimRight(p, "/"))
 			add(strings.TrimRight(p, "/") + "/")
@@ -259,6 +310,17 @@ func analyse(t *tree) *treeInfo {
 	}
 	sort.Strings(ti.paths)
 	return ti
+}
+
+// lateMask: bit i is set when leaf i is registered after start-up in the two-phase program t.
+func (ti *treeInfo) lateMask(t *tree) uint32 {
+	var m uint32
+	for i, lf := range ti.leaves {
+		if lf.top >= t.split() {
+			m |= 1 << i
+		}
+	}
+	return m
 }
 
 // instantiate replaces :id by "v", :t by "w" and * by star.
@@ -313,8 +375,9 @@ func containersOnly(t *tree) *tree {
 }
 
 // measure is the well-founded size the minimiser decreases.
-func (t *tree) measure() [4]int {
-	var m [4]int
+func (t *tree) measure() [5]int {
+	var m [5]int
+	m[4] = t.Late
 	var rec func(items []*node)
 	rec = func(items []*node) {
 		for _, n := range items {
@@ -329,6 +392,9 @@ func (t *tree) measure() [4]int {
 			if n.T == 'm' {
 				m[1]++
 			}
+			if t.Late > 0 {
+				m[1]++ // two-phase programs: a route is simpler than a container (empty group -> route)
+			}
 			m[2] += rankOf(prefixRank, n.Prefix)
 			rec(n.Items)
 		}
@@ -337,7 +403,7 @@ func (t *tree) measure() [4]int {
 	return m
 }
 
-func less4(a, b [4]int) bool {
+func less4(a, b [5]int) bool {
 	for i := range a {
 		if a[i] != b[i] {
 			return a[i] < b[i]
@@ -376,11 +442,28 @@ func (t *tree) candidates() []*tree {
 			out = append(out, c)
 		}
 	}
+	// a two-phase program stays one: something before and something after start-up
+	emit0 := emit
+	emit = func(c *tree) {
+		if t.Late > 0 && !c.phased() {
+			return
+		}
+		emit0(c)
+	}
+	// 0. one more top-level item registered before start-up
+	if t.Late > 1 {
+		c := t.clone()
+		c.Late--
+		emit(c)
+	}
 	// 1. delete a node
 	for _, a := range addrs {
 		c := t.clone()
 		p, i := at(c, a)
 		*p = append((*p)[:i:i], (*p)[i+1:]...)
+		if len(a) == 1 && t.Late > 0 && i >= t.split() {
+			c.Late--
+		}
 		emit(c)
 	}
 	// 2. hoist a container's items into its parent
@@ -393,6 +476,9 @@ func (t *tree) candidates() []*tree {
 		}
 		repl := append(append(append([]*node(nil), (*p)[:i]...), n.Items...), (*p)[i+1:]...)
 		*p = repl
+		if len(a) == 1 && t.Late > 0 && i >= t.split() {
+			c.Late += len(n.Items) - 1
+		}
 		emit(c)
 	}
 	// 3. mount -> group
@@ -402,6 +488,17 @@ func (t *tree) candidates() []*tree {
 		if (*p)[i].T == 'm' {
 			(*p)[i].T = 'g'
 			emit(c)
+		}
+	}
+	// 3b. two-phase programs: an empty group replaced by the simplest route (one canonical minimum)
+	if t.Late > 0 {
+		for _, a := range addrs {
+			c := t.clone()
+			p, i := at(c, a)
+			if n := (*p)[i]; n.T == 'g' && len(n.Items) == 0 {
+				(*p)[i] = &node{T: 'r', Kind: kGET, Pat: patRank[0]}
+				emit(c)
+			}
 		}
 	}
 	// 4. simpler prefix
@@ -498,6 +595,7 @@ func parseTree(s string) (t *tree, err error) {
 		pos += j + 1
 		return v
 	}
+	splitAt := -1
 	var items func(closer byte) []*node
 	items = func(closer byte) []*node {
 		var out []*node
@@ -506,6 +604,11 @@ func parseTree(s string) (t *tree, err error) {
 			if s[pos] == closer {
 				pos++
 				return out
+			}
+			if closer == ']' && strings.HasPrefix(s[pos:], "||") { // start-up marker (top level only)
+				pos += 2
+				splitAt = len(out)
+				continue
 			}
 			switch {
 			case strings.HasPrefix(s[pos:], "group(") || strings.HasPrefix(s[pos:], "mount("):
@@ -526,6 +629,9 @@ func parseTree(s string) (t *tree, err error) {
 					n.Kind = kUSE
 				case "ALL":
 					n.Kind = kALL
+				case "POS":
+					expect("T")
+					n.Kind = kPOST
 				default:
 					panic("route kind " + k)
 				}
@@ -542,5 +648,9 @@ func parseTree(s string) (t *tree, err error) {
 		}
 	}
 	expect("[")
-	return &tree{Items: items(']')}, nil
+	t = &tree{Items: items(']')}
+	if splitAt >= 0 {
+		t.Late = len(t.Items) - splitAt
+	}
+	return t, nil
 }
